@@ -133,6 +133,7 @@ int WorldQ::spawner_stub(int chan) {
       if (p.die) return 0;   // spawner dies with this delivery outstanding
       size_t off = 0;
       while (off < p.bytes.size()) { ssize_t w = kk->sys_write(1, p.bytes.data() + off, p.bytes.size() - off); if (w <= 0) return 0; off += (size_t)w; }
+      if (stub_unanswered[chan] > 0) stub_unanswered[chan]--;
       // (the ghost learns about reports when the daemon reads them: see on_send_event)
     }
     int64_t next = -1;
@@ -162,7 +163,7 @@ int WorldQ::spawner_stub(int chan) {
       Pending p; p.at = kk->clock + at.lat; p.delnum = cmd.delnum; p.order = ord++; p.die = at.die;
       if (!at.raw.empty()) { p.bytes = at.raw; p.wellformed = false; p.text = at.raw; }
       else { p.text = at.v + at.text; p.bytes = std::string(1, (char)cmd.delnum) + p.text + std::string(1, '\0'); p.wellformed = true; }
-      pend.push_back(p);
+      pend.push_back(p); stub_unanswered[chan]++;
     }
   }
 }
